@@ -330,9 +330,18 @@ def to_ops(events, watched, scratch_dirs):
     def under_owned(p):
         return any(p == o or p.startswith(o + '/') for o in owned)
 
+    muted = set()       # pids inside a runner-made listing (stage_runner)
     for i, ev in enumerate(events):
         p = ev['path']
         call = ev['call']
+        if p.endswith('.mark_begin'):
+            muted.add(ev['pid'])
+            continue
+        if p.endswith('.mark_end'):
+            muted.discard(ev['pid'])
+            continue
+        if ev['pid'] in muted:
+            continue
         if call == 'rename':
             p2 = ev['path2']
             if not (watched_p(p) or watched_p(p2)):
